@@ -224,7 +224,9 @@ CreateOK(t, H) ==
        /\ ValidConfig(H.cfg) \/ Report(t, 0, "create-accepted-invalid", "create", {}, {}, <<>>)
        /\ (H.cfg.variant \in Names =>
               /\ GamePart(H.cfg) = GamePart(Def(H.cfg.variant, H.cfg.sb, H.cfg.bb))
-              /\ {H.cfg.deckcards[j] : j \in DOMAIN H.cfg.deckcards} = DeckCards(Def(H.cfg.variant, H.cfg.sb, H.cfg.bb).deck))
+              /\ {H.cfg.deckcards[j] : j \in DOMAIN H.cfg.deckcards} = DeckCards(Def(H.cfg.variant, H.cfg.sb, H.cfg.bb).deck)
+              \* the code the hand-history writer filed the game under (read back and played): its own, or none if it has none
+              /\ ("written" \in DOMAIN H.cfg => IF H.cfg.written = "" THEN H.cfg.variant \notin Codes ELSE H.cfg.written = H.cfg.variant))
              \/ Report(t, 0, "variant-config", "create", {}, {}, <<"spec", Def(H.cfg.variant, H.cfg.sb, H.cfg.bb), "code", GamePart(H.cfg)>>)
        /\ Core(m) = Core(H.create.post)
              \/ Report(t, 0, "create", "create", DiffFields(Core(m), Core(H.create.post)), Kinds(m.log) \cup Kinds(H.create.post.log),
